@@ -95,6 +95,8 @@ type FuncContract struct {
 	Src      string
 	NoSafety bool
 	RetLets  map[int]map[string]*SExpr
+	Placeholder bool // declared in an *_api_verif.go file: replaced by a contract of the same key elsewhere
+	PureAs   string // the (deterministic, frame-free) result is this uninterpreted spec function of receiver and arguments
 	Reveal   []string
 	Only     []string // when set: only obligations whose name (after #) has one of these prefixes are generated; the rest is reported as not covered
 	Modifies []string // heap fields ("Type.field") that may change on pre-existing objects
@@ -113,7 +115,7 @@ var directiveKW = map[string]bool{
 	"spec": true, "lemma": true, "axiom": true, "func": true, "requires": true, "ensures": true,
 	"loop": true, "call": true, "assigns": true, "pure": true, "trusted": true, "arith": true,
 	"decreases": true, "induction": true, "use": true, "props": true, "ret": true, "entry": true,
-	"unfold": true, "iter": true, "ghost": true, "opaque": true, "nosafety": true, "have": true, "free": true, "dead": true, "modifies": true, "reveal": true, "proto": true, "only": true,
+	"unfold": true, "iter": true, "ghost": true, "opaque": true, "nosafety": true, "have": true, "free": true, "dead": true, "modifies": true, "reveal": true, "proto": true, "only": true, "pureas": true,
 }
 
 // collectAnnotations returns the //@ lines of a file, with positions.
@@ -256,6 +258,13 @@ func (cs *Contracts) parseFile(pkg string, lines []string, where string) {
 				sf.Body = p.parseExpr()
 				p.expectOp("}")
 			}
+			if prev, ok := cs.Specs[pkg+"."+sf.Name]; ok && prev.Body != nil && sf.Body == nil {
+				// a bodiless redeclaration (API placeholder) does not override a definition
+				curS, curF, curL = prev, nil, nil
+				break
+			} else if ok && prev.Body != nil && sf.Body != nil {
+				panic(w + ": duplicate definition of spec func " + sf.Name)
+			}
 			cs.Specs[pkg+"."+sf.Name] = sf
 			curS, curF, curL = sf, nil, nil
 		case "lemma", "axiom":
@@ -272,8 +281,18 @@ func (cs *Contracts) parseFile(pkg string, lines []string, where string) {
 			curL, curF, curS = lm, nil, nil
 		case "func":
 			fc := &FuncContract{Pkg: pkg, Key: strings.TrimSpace(it.text), Loops: map[int]*LoopSpec{}, Calls: map[int]*CallSpec{}, Src: where}
-			if _, dup := cs.Funcs[pkg+"."+fc.Key]; dup {
-				panic(w + ": duplicate contract for " + fc.Key)
+			fc.Placeholder = strings.Contains(where, "_api_")
+			if prev, dup := cs.Funcs[pkg+"."+fc.Key]; dup {
+				switch {
+				case prev.Placeholder && !fc.Placeholder:
+					// a real contract replaces the API placeholder
+				case !prev.Placeholder && fc.Placeholder:
+					// keep the real one; parse the placeholder into a scratch contract
+					curF, curL, curS = fc, nil, nil
+					continue
+				default:
+					panic(w + ": duplicate contract for " + fc.Key)
+				}
 			}
 			cs.Funcs[pkg+"."+fc.Key] = fc
 			curF, curL, curS = fc, nil, nil
@@ -327,6 +346,8 @@ func (cs *Contracts) parseFile(pkg string, lines []string, where string) {
 				panic(w + ": have only in lemmas")
 			}
 			curL.Haves = append(curL.Haves, parseClause(it.text, w))
+		case "pureas":
+			curF.PureAs = strings.TrimSpace(it.text)
 		case "only":
 			curF.Only = append(curF.Only, strings.FieldsFunc(it.text, func(r rune) bool { return r == ',' || r == ' ' })...)
 		case "proto":
